@@ -464,6 +464,10 @@ def cases(rng, tier):
     for k, vals in __import__("props.c18", fromlist=["x"]).REG_POOL.items():
         for v in vals + HOSTILE[:10]:
             out.append({"t": "register", "payload": dict(__import__("props.c18", fromlist=["x"]).REG_BASE, **{k: v})})
+    c18 = __import__("props.c18", fromlist=["x"])
+    for k, vals in c18.oidc_pool().items():
+        for v in vals + HOSTILE[:6]:
+            out.append({"t": "register", "payload": dict(c18.REG_BASE, **{k: v}), "oidc": True})
     for p in (None, [], "x", 5, {"jwks": {"keys": [{"kty": "oct"}]}}, {"jwks": {"keys": "x"}}, {"jwks": 5}, {"software_statement": "a.b.c"}, {"software_statement": 5}):
         out.append({"t": "register", "payload": p})
     for p in ({"client_id": 5}, {"client_id": "client1", "client_secret": ["x"]}, {"client_id": "client1", "redirect_uris": 5}, None, [], {"client_id": "client1", "scope": 5},
@@ -542,8 +546,15 @@ def impl(c):
         store, srv = world_oidc()
         return observe(lambda: srv.create_authorization_response(Req("POST", "https://as.example/authorize", dict(c["form"]), {}), grant_user=store.users[1]))
     if t == "register":
-        w = rw.RegWorld({"scopes_supported": ["a", "b"], "grant_types_supported": ["authorization_code"], "response_types_supported": ["code"],
-                         "token_endpoint_auth_methods_supported": ["none", "client_secret_basic"]})
+        sm = {"scopes_supported": ["a", "b"], "grant_types_supported": ["authorization_code"], "response_types_supported": ["code"],
+              "token_endpoint_auth_methods_supported": ["none", "client_secret_basic"]}
+        if c.get("oidc"):
+            from authlib.oauth2.rfc7591 import ClientMetadataClaims as C1
+            from authlib.oidc.registration import ClientMetadataClaims as C2
+            sm.update(__import__("props.c18", fromlist=["x"]).OIDC_METAS[1])
+            w = rw.RegWorld(sm, claims_classes=[C1, C2])
+        else:
+            w = rw.RegWorld(sm)
         o = w.register(copy.deepcopy(c["payload"]))
         return _from_reg(o)
     if t == "configure":
